@@ -38,3 +38,21 @@ Proof. destruct sh; by_bits r. Qed.
 
 Theorem field_validity_is_table compat r named : field_validity compat r named = run_rows compat (negb named) r validity_rows_field.
 Proof. destruct compat, named; by_bits r. Qed.
+
+(* ---- Attr::merge ------------------------------------------------------------------------------ *)
+(* every field of the four attribute records is merged left-biased (`self.x.or(other.x)`, `self.x || other.x`), except
+   the documentation and the two collections (`concrete`, `bound`): read from the four merge functions on every run *)
+Definition left_biased (row : str * str) : bool :=
+  str_eqb (snd row) (lit "or") || str_eqb (snd row) (lit "bool_or") ||
+  existsb (str_eqb (fst row)) [lit "docs"; lit "concrete"; lit "bound"].
+
+Theorem merge_rows_left_biased :
+  forallb left_biased (merge_rows_struct ++ merge_rows_enum ++ merge_rows_variant ++ merge_rows_field) = true.
+Proof. vm_compute. reflexivity. Qed.
+
+(* the model's merge: records are association lists read first-match, merging is concatenation *)
+Lemma value_of_app f a b :
+  value_of f (a ++ b) = match value_of f a with Some v => Some v | None => value_of f b end.
+Proof.
+  induction a as [|[x v] a IH]; cbn [app value_of]; [reflexivity|]. destruct (str_eqb x f); [reflexivity | exact IH].
+Qed.
